@@ -11,6 +11,16 @@ def speed_strings(rng):
     return m, rng.choice(forms)
 
 
+def after_straggler(req, rings):
+    """Wheatley's strikes of the touch that follows the last Look To - and whether a strike of the touch that Stop
+    Touch had just ended went out *after* that Look To (the two messages less than a blow interval apart, Wheatley
+    asleep towards that strike): the known finding C11-look-to-overtakes-last-strike."""
+    T = req["t0"]
+    out = [x for x in rings if x[0] >= T]
+    req["_straggler"] = bool("stop_at" in req and out and out[0][0] < T + 3 - 1e-3)
+    return out
+
+
 class C11(scen.WorldProp):
     id = "C11"
     fuzz_kinds = {"ring", "r_init", "r_bell", "r_setting"}
@@ -187,7 +197,9 @@ class C11(scen.WorldProp):
         if scen.interval(sc["rhythm"]["peal_speed"], sc["tower_size"]) <= 0.010001:
             return None                     # (outside the domain of the closed form: known finding)
         # the tick loop the theorem `solo_closed_form` is about, evaluated for this configuration
-        rings = [t for (t, b, h) in scen.rings(ir) if t >= req["t0"]]
+        rings = [t for (t, b, h) in after_straggler(req, scen.rings(ir))]
+        if req.get("_straggler"):
+            return None                     # (known finding: judged by the oracle, reported as such)
         times = [scen.b2f(x) for x in solo["times"]]
         for k, (a, b) in enumerate(zip(rings, times)):
             if abs(a - b) > 2e-6:
@@ -204,6 +216,8 @@ class C11(scen.WorldProp):
     def matches_finding(self, finding, req, msg):
         sc = req["scenario"]
         I = scen.interval(sc["rhythm"]["peal_speed"], sc["tower_size"])
+        if finding["id"] == "C11-look-to-overtakes-last-strike":
+            return bool(req.get("_straggler"))
         return finding["id"] == "C11-interval-below-tick" and I <= 0.010001
 
     def oracle(self, req, reply):
@@ -215,7 +229,7 @@ class C11(scen.WorldProp):
         g = scen.b2f(sc["rhythm"]["gap"])
         I = scen.interval(ps, N)
         T = req["t0"]
-        rings = [x for x in scen.rings(reply) if x[0] >= T]       # (the touch after the last Look To)
+        rings = after_straggler(req, scen.rings(reply))           # (the touch after the last Look To)
         if len(rings) < N:
             return "Wheatley did not ring a whole row"
         for k, (t, b, h) in enumerate(rings):
